@@ -24,6 +24,10 @@ structure Input where
   pages : List (List Sig)
   ref : Ref
   skip : Bool               -- the applicable level is skip (verifier implements SkipVerify)
+  refVariant : String       -- how the reference is spelled (concretisation only: digest algorithm of a
+                            -- mismatching digest, `tag@digest` form); must not matter beyond `ref`
+  flavors : List Nat        -- per listed signature: which error value a failing fetch / verification
+                            -- returns (plain, wrapping context.DeadlineExceeded / Canceled, typed ...); must not matter
   deriving Repr, FromJson, ToJson
 
 structure Obs where
